@@ -21,6 +21,10 @@ CATALOG: dict[str, dict] = {
     "SvMul": dict(kind="op", i="float", o="float", params={"factor": None}),
     "SvMulDefault": dict(kind="op", i="float", o="float", params={"factor": 2.0}),
     "SvAffine": dict(kind="op", i="float", o="float", params={"gain": None, "bias": 0.25}),
+    "SvCaseOp": dict(kind="op", i="float", o="float", params={"Gain": None, "gain": None}),
+    "SvScaleInPlace": dict(kind="op", i="float", o="float", params={"scale": 3.0}),
+    "SvToStream": dict(kind="op", i="float", o="stream", params={"step": 0.5}),
+    "SvStreamSum": dict(kind="op", i="stream", o="float", params={}),
     "SvCtxWriterA": dict(kind="op", i="float", o="float", params={"scale": 1.0}, creates=["wa"]),
     "SvCtxWriterB": dict(kind="op", i="float", o="float", params={}, creates=["wb"]),
     "SvToText": dict(kind="op", i="float", o="text", params={}),
@@ -33,15 +37,21 @@ CATALOG: dict[str, dict] = {
     "SvNullSink": dict(kind="sink", i="float", o="float", params={}),
     "SvCtxCombine": dict(kind="ctx", i=None, o=None, params={"a_in": None, "b_in": 1.25}, creates=["comb_out"]),
 }
-FLOAT_OPS = ["SvAdd", "SvAddDefault", "SvMul", "SvMulDefault", "SvAffine", "SvCtxWriterA", "SvCtxWriterB"]
+FLOAT_OPS = ["SvAdd", "SvAddDefault", "SvMul", "SvMulDefault", "SvAffine", "SvCtxWriterA", "SvCtxWriterB", "SvCaseOp",
+             "SvScaleInPlace", "SvAdd", "SvMulDefault", "SvAffine"]
 PROBES = ["SvProbe", "SvProbeParam", "SvProbeDefault"]
-EXPRS_1 = ["2.0 * {v}", "{v} + 1.5", "{v} * {v}", "0.5 + {v} * 3.0", "-{v}", "abs({v}) + 0.25"]
-EXPRS_2 = ["{a} + {b}", "{a} * {b} + 0.5", "{b} - {a}", "2.0 * {a} + 3.0 * {b}"]
+EXPRS_1 = ["2.0 * {v}", "{v} + 1.5", "{v} * {v}", "0.5 + {v} * 3.0", "-{v}", "abs({v}) + 0.25",
+           "{v} * 2.0 + 3.0 * {v} * {v}", "({v} + 1.0) * ({v} + 2.0)", "{v} * 4.0 + 0.5 * {v} + 1.0"]
+EXPRS_2 = ["{a} + {b}", "{a} * {b} + 0.5", "{b} - {a}", "2.0 * {a} + 3.0 * {b}", "{a} * 2.0 + {b} * {a}",
+           "({b} + {a}) * ({a} + 1.5)", "{a} * {b} + {b} * 0.25 + {a} * 1.5", "({a} + {b}) * ({b} + 2.0) + {a}"]
 
 
 class _G:
     def __init__(self, rng: random.Random, *, allow_sweep=True, allow_slicer=True,
-                 allow_file_sink=True, allow_ctx=True, max_nodes=8, real_leaves=False):
+                 allow_file_sink=True, allow_ctx=True, max_nodes=8, real_leaves=False, allow_nonfinite=True,
+                 allow_stream=True):
+        self.allow_nonfinite = allow_nonfinite
+        self.allow_stream = allow_stream
         self.rng = rng
         self.nodes: list[dict] = []
         self.truth: list[dict] = []
@@ -124,8 +134,12 @@ class _G:
             if p in self.live and self.live[p] == "num":
                 choices += ["live", "live"]
             c = rng.choice(choices)
+            if name == "SvCaseOp" and rng.random() < 0.6:
+                c = "ctx0"     # both case-variant keys required from the initial context
             if c == "node":
                 params[p] = self.val()
+                if self.allow_nonfinite and name in ("SvAdd", "SvAddDefault", "SvAffine", "SvCaseOp") and rng.random() < 0.04:
+                    params[p] = float("inf") if rng.random() < 0.7 else float("-inf")
             elif c == "ctx0":
                 if p not in self.live:
                     self.ctx0[p] = self.val()
@@ -260,6 +274,9 @@ class _G:
         if d == "text":
             self._plain("SvTextLen")
             return
+        if d == "stream":
+            self._plain("SvStreamSum")
+            return
         if d == "coll":
             r = rng.random()
             if self.allow_slicer and r < 0.35:
@@ -290,8 +307,10 @@ class _G:
         elif r < 0.76:
             name = "SvFileSink" if (self.allow_file_sink and rng.random() < 0.6) else "SvNullSink"
             self._plain(name)
-        elif r < 0.82:
+        elif r < 0.80:
             self._plain("SvToText")
+        elif r < 0.84 and self.allow_stream:
+            self._plain("SvToStream")
         elif self.allow_sweep and r < 0.95:
             self.add_sweep(rng.choice(["SvMul", "SvAffine", "SvAdd", "SvProbeParam", "SvProbeDefault"]))
         else:
